@@ -2,17 +2,20 @@
     (v4_unix.go, db.go, iprange.go, bitset.go, config.go) as the code is now.
     No proofs here.
 
-    Conventions.  Addresses and 6-byte hardware addresses are [N]; hostnames
-    are [bytes] (ASCII); instants are [Z] nanoseconds on the logical clock
+    Conventions.  Addresses are [N]; a hardware address of k bytes b1..bk is
+    the number 256^k + (b1..bk read big-endian) (so the length is part of the
+    value and equality of numbers is bytes.Equal); hostnames are [bytes]
+    (ASCII); instants are [Z] nanoseconds on the logical clock
     (wall clock plus every shift of the deadlines); the clock is an input of
     every operation.  The lease list, the hostname index, the address index
     and the leased-offset set are kept explicit as in the code.  Index entries
     are pointers in Go; a lease object never changes its address, so an entry
     is modelled by the address of the lease it points to and dereferenced by
-    looking that address up in the list.  The ICMP probe is fixed to "address
-    free" (ICMPTimeout = 0), so [allocateLease] is [reserveLease] and nothing
-    is ever block-listed.  [disk] is the content of leases.json, written where
-    the code notifies LeaseChangedDBStore. *)
+    looking that address up in the list.  The ICMP probe (addrAvailable) is
+    an oracle: every step carries the list [busy] of addresses that answer an
+    echo request at that moment (empty when ICMPTimeout = 0).  [disk] is the
+    content of leases.json, written where the code notifies
+    LeaseChangedDBStore. *)
 From Coq Require Import List ZArith NArith Bool.
 From AGH Require Import Base.Run.
 Import ListNotations.
@@ -48,6 +51,33 @@ Definition empty_state : state := State [] empty_index [].
 
 (** The zero time.Time (year 1), in Unix nanoseconds. *)
 Definition exp_zero : Z := (-62135596800000000000)%Z.
+
+(** * Hardware addresses *)
+
+Definition mac_len (m : N) : N := N.log2 m / 8.
+Definition zero_mac (k : N) : N := 2 ^ (8 * k).
+
+(** isBlocklisted: at least one byte and every byte zero. *)
+Definition is_blocklisted (m : N) : bool := (0 <? mac_len m) && (m =? zero_mac (mac_len m)).
+
+(** make(net.HardwareAddr, defaultHwAddrLen) *)
+Definition blocklist_mac : N := zero_mac 6.
+
+(** netutil.ValidateMAC, and what net.ParseMAC reads back from the file. *)
+Definition valid_mac (m : N) : bool :=
+  let k := mac_len m in (k =? 6) || (k =? 8) || (k =? 20).
+
+Fixpoint mac_bytes_aux (n : nat) (m : N) (acc : bytes) : bytes :=
+  match n with O => acc | S n' => mac_bytes_aux n' (m / 256) (m mod 256 :: acc) end.
+Definition mac_bytes (m : N) : bytes := mac_bytes_aux (N.to_nat (mac_len m)) m [].
+Definition mac_of_bytes (b : bytes) : N := fold_left (fun a x => a * 256 + x) b 1.
+
+(** copy(dst, src) on hardware addresses: the first min(len) bytes of [src]
+    over [dst]; with equal lengths the result is [src]. *)
+Definition copy_mac (dst src : N) : N :=
+  if mac_len dst =? mac_len src then src
+  else let d := mac_bytes dst in let s := mac_bytes src in
+       mac_of_bytes (firstn (length d) s ++ skipn (length s) d).
 
 (** * Hostnames (ASCII) *)
 
@@ -234,17 +264,17 @@ Definition expired (now : Z) (l : lease) : bool := negb (l_static l) && (l_exp l
 Definition find_expired (now : Z) (ls : list lease) : option (nat * lease) :=
   find_index (expired now) ls.
 
-Inductive reserved := RsErr | RsNone | RsAt (i : nat).
+Inductive reserved := RsErr | RsNone | RsAt (i : nat) | RsFuel.
 
 Definition set_leases (s : state) (ls : list lease) : state := State ls (ix s) (disk s).
 
-(** reserveLease (= allocateLease with the probe answering "free"). *)
+(** reserveLease *)
 Definition reserve (c : conf) (now : Z) (mac : N) (s : state) : state * reserved :=
   match next_ip c s with
   | None =>
       match find_expired now (leases s) with
       | None => (s, RsNone)
-      | Some (i, _) => (set_leases s (update_nth i (fun l => set_mac l mac) (leases s)), RsAt i)
+      | Some (i, _) => (set_leases s (update_nth i (fun l => set_mac l (copy_mac (l_mac l) mac)) (leases s)), RsAt i)
       end
   | Some ip =>
       match add_lease c (Lease ip mac [] false exp_zero) s with
@@ -273,6 +303,45 @@ Definition commit (c : conf) (now : Z) (i : nat) (hostname : bytes) (s : state) 
             (Index hi2 (upd (iidx (ix s)) (l_ip l) true) (offs (ix s)))
             (disk s)
   end.
+
+Definition ip_at (s : state) (i : nat) : N :=
+  match nth_error (leases s) i with Some l => l_ip l | None => 0 end.
+
+(** blocklistLease on the lease at position [i] (with the repair: the
+    hostname index entry of the name that is cleared is deleted). *)
+Definition blocklist (c : conf) (now : Z) (i : nat) (s : state) : state :=
+  match nth_error (leases s) i with
+  | None => s
+  | Some l =>
+      State (update_nth i (fun l => Lease (l_ip l) blocklist_mac [] (l_static l) (now + c_lease c)%Z)
+                        (leases s))
+            (Index (if negb (is_nil (l_host l)) && negb (eqb_bytes (l_host l) [])
+                    then hupd (hidx (ix s)) (l_host l) None else hidx (ix s))
+                   (iidx (ix s)) (offs (ix s)))
+            (disk s)
+  end.
+
+Definition mem_ip (ip : N) (l : list N) : bool := existsb (N.eqb ip) l.
+
+(** allocateLease: reserve, probe, block-list the address if it answers and
+    try again.  [busy] lists the addresses that answer the probe.  The loop
+    runs at most once per free pool offset and once per expired lease;
+    [RsFuel] marks running out of [fuel] (never, see Proofs). *)
+Fixpoint allocate (fuel : nat) (c : conf) (now : Z) (busy : list N) (mac : N) (s : state)
+  : state * reserved :=
+  match fuel with
+  | O => (s, RsFuel)
+  | S f =>
+      match reserve c now mac s with
+      | (s1, RsAt i) =>
+          if mem_ip (ip_at s1 i) busy then allocate f c now busy mac (blocklist c now i s1)
+          else (s1, RsAt i)
+      | r => r
+      end
+  end.
+
+Definition alloc_fuel (c : conf) (s : state) : nat :=
+  S (length (pool_offsets c) + length (leases s)).
 
 (** * The database file *)
 
@@ -311,8 +380,12 @@ Definition reload_lease (l : lease) : lease :=
   if negb (l_static l) && negb (is_nil (l_host l))
   then set_host l (valid_hostname_for_client (l_host l) (l_ip l)) else l.
 
+(** One entry of the file: toLease fails (entry skipped) when net.ParseMAC
+    does not read the hardware address back; addLease may refuse. *)
 Definition load_step (c : conf) (s : state) (l : lease) : state :=
-  match add_lease c (reload_lease l) s with Some s' => s' | None => s end.
+  if valid_mac (l_mac l) then
+    match add_lease c (reload_lease l) s with Some s' => s' | None => s end
+  else s.
 
 (** dbLoad + ResetLeases into a fresh server. *)
 Definition load (c : conf) (d : list lease) : state :=
@@ -325,18 +398,17 @@ Inductive reply :=
   | RNak                      (* 0 *)
   | ROk (mt : N) (yiaddr : N) (* 1: message type option (0 none, 2 OFFER, 5 ACK), yiaddr (0 unset) *)
   | RApi (ok : bool)          (* static-lease API: accepted / rejected *)
-  | RNone.
-
-Definition ip_at (s : state) (i : nat) : N :=
-  match nth_error (leases s) i with Some l => l_ip l | None => 0 end.
+  | RNone
+  | RFuel.                    (* the model ran out of fuel: never *)
 
 (** handleDiscover; the database is stored on return in every case. *)
-Definition discover (c : conf) (now : Z) (mac : N) (s : state) : state * reply :=
+Definition discover (c : conf) (now : Z) (busy : list N) (mac : N) (s : state) : state * reply :=
   match find_lease mac (leases s) with
   | Some (_, l) => (store s, ROk 2 (l_ip l))
   | None =>
-      match reserve c now mac s with
+      match allocate (alloc_fuel c s) c now busy mac s with
       | (s', RsAt i) => (store s', ROk 2 (ip_at s' i))
+      | (s', RsFuel) => (store s', RFuel)
       | (s', _) => (store s', RNak)
       end
   end.
@@ -402,8 +474,8 @@ Definition msg_ip (reqip : option N) (ciaddr : N) : N :=
   match reqip with Some ip => ip | None => ciaddr end.
 
 (** handleDecline; stored on return in every case. *)
-Definition decline (c : conf) (now : Z) (mac : N) (reqip : option N) (ciaddr : N) (s : state)
-  : state * reply :=
+Definition decline (c : conf) (now : Z) (busy : list N) (mac : N) (reqip : option N) (ciaddr : N)
+    (s : state) : state * reply :=
   let ip := msg_ip reqip ciaddr in
   match find_index (fun l => (l_mac l =? mac) && (l_ip l =? ip)) (leases s) with
   | None => (store s, ROk 0 0)
@@ -411,8 +483,9 @@ Definition decline (c : conf) (now : Z) (mac : N) (reqip : option N) (ciaddr : N
       match rm_dynamic_lease c (l_mac old) (l_ip old) (l_host old) s with
       | (s1, true) => (store s1, RNak)
       | (s1, false) =>
-          match reserve c now mac s1 with
+          match allocate (alloc_fuel c s1) c now busy mac s1 with
           | (s2, RsErr) => (store s2, RNak)
+          | (s2, RsFuel) => (store s2, RFuel)
           | (s2, RsNone) => (store s2, ROk 5 0)
           | (s2, RsAt i) => (store (commit c now i (l_host old) s2), ROk 5 (ip_at s2 i))
           end
@@ -436,6 +509,7 @@ Definition release (c : conf) (mac : N) (reqip : option N) (ciaddr : N) (s : sta
     leases in the way may already have been removed. *)
 Definition static_add (c : conf) (mac ip : N) (host : bytes) (s : state) : state * reply :=
   if ip =? c_gw c then (s, RApi false) else
+  if negb (valid_mac mac) then (s, RApi false) else
   match (if is_nil host then Some []
          else match normalize host with
               | Some n => if valid_hostname n then Some n else None
@@ -495,6 +569,7 @@ Definition static_update (c : conf) (mac ip : N) (host : bytes) (s : state) : st
 
 (** RemoveStaticLease; stored only on success. *)
 Definition static_remove (c : conf) (mac ip : N) (host : bytes) (s : state) : state * reply :=
+  if negb (valid_mac mac) then (s, RApi false) else
   match rm_lease c ip mac host s with
   | None => (s, RApi false)
   | Some s1 => (store s1, RApi true)
@@ -514,11 +589,11 @@ Inductive op :=
   | OTick                      (* time passes: only the clock input moves *)
   | ORestart.
 
-Definition step (c : conf) (s : state) (now : Z) (o : op) : state * reply :=
+Definition step (c : conf) (s : state) (now : Z) (busy : list N) (o : op) : state * reply :=
   match o with
-  | ODiscover mac => discover c now mac s
+  | ODiscover mac => discover c now busy mac s
   | ORequest mac sid reqip ci host => request c now mac sid reqip ci host s
-  | ODecline mac reqip ci => decline c now mac reqip ci s
+  | ODecline mac reqip ci => decline c now busy mac reqip ci s
   | ORelease mac reqip ci => release c mac reqip ci s
   | OStaticAdd mac ip host => static_add c mac ip host s
   | OStaticUpdate mac ip host => static_update c mac ip host s
@@ -527,9 +602,11 @@ Definition step (c : conf) (s : state) (now : Z) (o : op) : state * reply :=
   | ORestart => (restart c s, RNone)
   end.
 
-(** A history is a list of (clock reading, operation). *)
-Definition run (c : conf) (h : list (Z * op)) (s : state) : state :=
-  fold_left (fun s p => fst (step c s (fst p) (snd p))) h s.
+(** A history is a list of (clock reading, addresses that answer the probe,
+    operation). *)
+Definition event : Type := Z * list N * op.
+Definition run (c : conf) (h : list event) (s : state) : state :=
+  fold_left (fun s (p : event) => fst (step c s (fst (fst p)) (snd (fst p)) (snd p))) h s.
 
 (** * Views *)
 
@@ -543,6 +620,7 @@ Definition host_by_ip (s : state) (ip : N) : bytes :=
 Definition ip_by_host (s : state) (h : bytes) : N :=
   match hidx (ix s) h with Some ip => ip | None => 0 end.
 
-(** GetLeases(LeasesAll) at instant [now]: static leases and unexpired dynamic ones. *)
+(** GetLeases(LeasesAll) at instant [now]: static leases and dynamic ones
+    that are neither expired nor block-listed. *)
 Definition active (now : Z) (s : state) : list lease :=
-  filter (fun l => l_static l || (now <? l_exp l)%Z) (leases s).
+  filter (fun l => l_static l || ((now <? l_exp l)%Z && negb (is_blocklisted (l_mac l)))) (leases s).
